@@ -10,7 +10,7 @@ for k in 1 2 3; do
   # which package does the demo go in? header comment or the patch's directory
   pkg=$PKG
   demo=$(ls $dst/demo*_test.go 2>/dev/null | head -1)
-  for cand in server rpc internal/packed encoding/text pogs; do
+  for cand in server rpc internal/packed internal/strquote internal/nodemap internal/schema encoding/text pogs capnpc-go; do
     if grep -q "\./$cand" "$demo" 2>/dev/null; then pkg=$cand; break; fi
   done
   conf=$(/verif/seeded/confirm.sh $dst $pkg 2>&1 | tail -1)
